@@ -301,7 +301,8 @@ class Bytes(Stage):
                 else: b[i:i] = bytes([d.int(128, 255)])
         # the sandbox only has C locales, where Python decodes standard input with surrogateescape; under an ordinary UTF-8 locale
         # (en_US.UTF-8 ...) standard streams decode strictly - PYTHONIOENCODING reproduces exactly that
-        return dict(data=list(bytes(b)), exit=d.choice([0, 3]), mode=d.choice(['file', 'pipe', 'pipe', 'run']), stdio=d.choice([None, 'utf-8:strict', 'utf-8:strict']))
+        return dict(data=list(bytes(b)), exit=d.choice([0, 3]), mode=d.choice(['file', 'pipe', 'pipe', 'run']), stdio=d.choice([None, 'utf-8:strict', 'utf-8:strict']),
+                    no_stdin=d.chance(0.35))      # nobody at the prompt: standard input at end of file
 
     def execute(self, case):
         res = Result()
@@ -310,7 +311,7 @@ class Bytes(Stage):
         with cli.Scratch() as sc:
             if case['mode'] == 'file':
                 log = sc.write('in.log', data, 'wb')
-                rc, out, err = cli.run_main(['-C', '-l', log], stdin=b'q\n', extra_env=xenv)
+                rc, out, err = cli.run_main(['-C', '-l', log], stdin=b'' if case.get('no_stdin') else b'q\n', extra_env=xenv)
                 want = 0
             elif case['mode'] == 'pipe':
                 rc, out, err = cli.run_main(['-C', '-p'], stdin=data, extra_env=xenv)
@@ -318,7 +319,7 @@ class Bytes(Stage):
             else:
                 child = sc.write('child.py', cli.CHILD)
                 spec = sc.write('spec.json', json.dumps(dict(report=sc.path('report.json'), chunks=[[list(data), 0]], exit=case['exit'])))
-                rc, out, err = cli.run_main(['-C', '-r', cli.PY, child], stdin=b'q\n', extra_env=dict(xenv, WDV_CHILD_SPEC=spec))
+                rc, out, err = cli.run_main(['-C', '-r', cli.PY, child], stdin=b'' if case.get('no_stdin') else b'q\n', extra_env=dict(xenv, WDV_CHILD_SPEC=spec))
                 want = case['exit']
         mode = case['mode']
         if rc is None or b'Failed to join subprocess thread' in err:
